@@ -327,7 +327,7 @@ def pool_skeletons(tier, seed):
     from . import rulefam  # hand-written per-rule programs and string-layout programs (DESIGN 12, round 3)
 
     fam = rulefam.skeletons()
-    lay = rulefam.layout_skeletons()
+    lay = rulefam.layout_skeletons() + rulefam.tricky_skeletons()
     if tier == "quick":
         return rnd.sample(hv, min(len(hv), 90)) + gr + rnd.sample(lit, 25) + rnd.sample(c17, 20) + rnd.sample(fam, 40) + lay
     return hv + gr + lit[::3] + c17[::3] + fam + lay
